@@ -237,7 +237,7 @@ def specs(tier):
     if tier != "quick":
         out.append(dict(module=Mo, scenario="Ctors", params=dict(degrees=[1, 1, 1, 1], orient=True)))
     for via in ("segments", "ctrlpoints", "init"):
-        for where in (0, 2):
+        for where in (0, 2, 3):  # 3 = the closing junction (last end point -> first start point)
             out.append(dict(module=Mo, scenario="OpenChain", params=dict(poly="square", where=where, via=via)))
     return out
 
